@@ -31,6 +31,6 @@ func init() {
 	hx.Register("C18", func(c *hx.Ctx) {
 		c.Rule("clean path: every configuration of the grid (driving mode x nodelay x delay x windows x write pattern; two independent flush clocks; trained estimator plus outlier at every offset) is one deterministic execution with no faults; RTO bound: explicit-state BFS over acknowledgements with an aged/forged timestamp alphabet, ticks and sends. Non-trivial = every configuration / every new BFS state")
 		vfC18clean(c)
-		vfRtoBFS(c, hx.Pick(c, 4, 5))
+		vfRtoBFS(c, hx.Pick(c, 5, 6))
 	})
 }
